@@ -49,7 +49,7 @@ def run(prog, rep, tier='quick'):
     rep.rule('length', 'every return of the generator has symbolic length N')
     rep.rule('centre', 'centre sample (odd N) == 1 within 1e-6, exact arithmetic on the literals')
     rep.rule('finite', 'no division by a grid that vanishes at the centre sample')
-    rep.rule('factory-params', 'windows_with_parameters keys == documented shape parameters, each a keyword of its generator')
+    rep.rule('factory-params', 'for every name the keywords create_window accepts (abstract call per keyword) == the documented shape parameters, each a keyword of its generator')
     rep.rule('forwarding', 'create_window(N, name, p=v) calls the generator with p=v; unknown keywords raise')
     rep.rule('window-object', 'Window.data is the factory result; Window.enbw has scaling degree 0 and size signature N')
     rep.trusted += ['numpy.hamming/hanning/bartlett/kaiser, scipy chebwin: N real symmetric samples, maximum 1 at the centre of an odd window',
@@ -128,24 +128,35 @@ def run(prog, rep, tier='quick'):
                 rep.proved('centre', 'window.' + fn, cname, 'centre sample = %s' % cen, where)
             else:
                 rep.violation('centre', 'window.' + fn, cname, 'centre sample of an odd-length window is %s, not 1' % cen, where)
-    # ---------------- factory parameter table
+    # ---------------- factory parameter table: decided from what the factory does, however the table is written -- for every
+    # name and every keyword any generator knows, the abstract call create_window(N, name, kw=marker) either reaches the generator
+    # or raises; the accepted set must be the documented shape parameters
     cw = m.funcs.get('create_window')
     if cw is None:
         raise AnalysisError('create_window vanished')
-    wwp = None
-    # the table may live in the factory, in a helper it calls, or at module level
-    for node in list(ast.walk(cw)) + list(ast.walk(m.tree)):
-        if isinstance(node, ast.Assign) and isinstance(node.targets[0], ast.Name) and node.targets[0].id == 'windows_with_parameters' \
-                and isinstance(node.value, ast.Dict) and wwp is None:
-            wwp = node.value
-    if wwp is None:
-        raise AnalysisError('create_window.windows_with_parameters is no longer a literal dict')
-    got = {}
-    for k, v in zip(wwp.keys, wwp.values):
-        if isinstance(k, ast.Constant) and isinstance(v, ast.Dict):
-            got[k.value] = set(x.value for x in v.keys if isinstance(x, ast.Constant))
     where = loc('window', cw)
+    allkw = sorted(set(a.arg for fn_ in set(table.values()) if fn_ in m.funcs for a in m.funcs[fn_].args.args[1:]))
+    got = {}
     n_par = 0
+    fcw = prog.func('window', 'create_window')
+    for name in sorted(table):
+        fn = table[name]
+        if fn not in m.funcs:
+            continue
+        acc = set()
+        for kwname in allkw:
+            itp = C.new_interp(prog, summaries={})
+            itp.summaries.pop('window.Window', None)
+            itp.watch['window.' + fn] = []
+            st_ = St({}, {})
+            try:
+                v_ = itp.call_function(fcw, [C.symint('Nw', 3, 'N'), Const(name)], {kwname: C.deg0(label='marker:' + kwname)}, st_, fcw.node)
+            except PathEnd:
+                v_ = None
+            if v_ is not None and itp.watch['window.' + fn]:
+                acc.add(kwname)
+        if acc:
+            got[name] = acc
     for name in sorted(set(got) | set(SHAPE_PARAMS)):
         n_par += 1
         a, b = got.get(name), SHAPE_PARAMS.get(name)
